@@ -293,6 +293,13 @@ def run(ck, F):
 
     import c03 as _c03
     _c03.arena_bounds(ck, F, prefix='C19')
+    # every String the pool hands out views storage the pool itself owns: one that views the caller's buffer is read (compared,
+    # printed) after that buffer has been reused or released
+    R8b = ck.rule('C19.owned-bytes', 'every String node created by intern views the arena copy of the word (data and length of one header '
+                  'returned by make_string(word.data(), word.length())), never the caller\'s buffer, on every path -- whatever further '
+                  'parameter the function has', floor=1)
+    for inst_, ok_, msg_, loc_, fid_ in arena.owned_bytes(F):
+        ck.check(R8b, inst_, ok_, msg_ + ' -- later lookups read that buffer after the caller is done with it', loc=loc_, fn=fid_)
 
     # reads of fixed tables stay inside them
     R9 = ck.rule('C19.table-index-bounded', 'every subscript of an array of fixed extent N in the library (built-in arrays and std::array; '
